@@ -24,7 +24,8 @@ static vector<vector<double>> bellman(int n, const vector<E> &es) {
     }
     return O;
 }
-static bool same(double got, double want) { return got == want || (want != DBL_MAX && got != DBL_MAX && fabs(got - want) <= 1e-9 * max(1.0, fabs(want))); }
+static double g_scale = 1;   // all weights of the structured family are multiplied by a power of two: every sum scales exactly, so the tolerance scales with it
+static bool same(double got, double want) { return got == want || (want != DBL_MAX && got != DBL_MAX && fabs(got - want) <= 1e-9 * max(g_scale, fabs(want))); }
 
 static void run(int n, int maxm, const vector<double> &ws, bool layout) {
     vector<E> alpha;
@@ -94,10 +95,11 @@ static void run(int n, int maxm, const vector<double> &ws, bool layout) {
 // larger structured graphs: the pairing heap only grows its sibling array beyond five siblings, relaxations only chain over many steps, etc.
 // Every member of a small parametric family: shape x size x weight pattern.
 static void families(bool thorough) {
-    ctx.phase("structured graphs: {star, path, cycle, wheel, complete, two components, ladder} x n in {6,8,12,20,33(,64)} x 4 weight patterns");
+    ctx.phase("structured graphs: {star, path, cycle, wheel, complete, two components, ladder} x n in {6,8,12,20,33(,64)} x 4 weight patterns x weight scale in {1, 2^-33 (about 1e-10), 2^23}");
     vector<int> sizes = {6, 8, 12, 20, 33}; if (thorough) sizes.push_back(64);
-    for (int shape = 0; shape < 7; shape++) for (int n : sizes) for (int wp = 0; wp < 4; wp++) {
+    for (int shape = 0; shape < 7; shape++) for (int n : sizes) for (int wp = 0; wp < 4; wp++) for (int sci = 0; sci < 3; sci++) {
         if (shape == 4 && n > 20) continue; if (ctx.stopped()) return; if (!ctx.next()) continue;
+        g_scale = sci == 0 ? 1 : sci == 1 ? ldexp(1.0, -33) : ldexp(1.0, 23);
         vector<pair<unsigned, unsigned>> pe;
         if (shape == 0) for (int i = 1; i < n; i++) pe.push_back({0, (unsigned)i});
         else if (shape == 1) for (int i = 1; i < n; i++) pe.push_back({(unsigned)i - 1, (unsigned)i});
@@ -106,8 +108,8 @@ static void families(bool thorough) {
         else if (shape == 4) for (int i = 0; i < n; i++) for (int j = i + 1; j < n; j++) pe.push_back({(unsigned)i, (unsigned)j});
         else if (shape == 5) { int h = n / 2; for (int i = 1; i < h; i++) pe.push_back({0, (unsigned)i}); for (int i = h + 1; i < n; i++) pe.push_back({(unsigned)i - 1, (unsigned)i}); }
         else { int h = n / 2; for (int i = 0; i < h; i++) { if (i + 1 < h) { pe.push_back({(unsigned)i, (unsigned)i + 1}); pe.push_back({(unsigned)(h + i), (unsigned)(h + i + 1)}); } pe.push_back({(unsigned)i, (unsigned)(h + i)}); } }
-        vector<E> es; for (size_t k = 0; k < pe.size(); k++) { double w = wp == 0 ? 1 : wp == 1 ? ((k * 7 + 3) % 5) * 0.5 : wp == 2 ? 1 + (k % 3) * 0.75 : (double)((k * k + 1) % 7) + 0.25; es.push_back({pe[k].first, pe[k].second, w}); }
-        string desc = mcx::fmt("structured shape#%d n=%d weights#%d (%zu edges)", shape, n, wp, es.size()); ctx.sample(desc, 1); ctx.count("states"); ctx.count("nontrivial"); ctx.count("transitions", 2 + n);
+        vector<E> es; for (size_t k = 0; k < pe.size(); k++) { double w = wp == 0 ? 1 : wp == 1 ? ((k * 7 + 3) % 5) * 0.5 : wp == 2 ? 1 + (k % 3) * 0.75 : (double)((k * k + 1) % 7) + 0.25; es.push_back({pe[k].first, pe[k].second, w * g_scale}); }
+        string desc = mcx::fmt("structured shape#%d n=%d weights#%d x %g (%zu edges)", shape, n, wp, g_scale, es.size()); ctx.sample(desc, 1); ctx.count("states"); ctx.count("nontrivial"); ctx.count("transitions", 2 + n);
         int m = es.size(); vector<shortest_paths::Edge> se; valarray<double> ew(m); for (int i = 0; i < m; i++) { se.push_back({es[i].u, es[i].v}); ew[i] = es[i].w; }
         auto O = bellman(n, es);
         double **D1 = new double *[n], **D2 = new double *[n]; for (int i = 0; i < n; i++) { D1[i] = new double[n]; D2[i] = new double[n]; }
@@ -126,6 +128,7 @@ static void families(bool thorough) {
             for (int i = 0; i < n && !bad; i++) for (int j = 0; j < n; j++) { double want = (O2[i][j] == DBL_MAX) ? DBL_MAX : (i == j ? 0 : 30 * O2[i][j]); if (!same(D[n * i + j], want)) { ctx.violation("layout_D_wrong", {}, desc, mcx::fmt("D[%d][%d]=%g want %g", i, j, D[n * i + j], want)); bad = true; break; } }
             for (auto r : rs) delete r; }
         for (int i = 0; i < n; i++) { delete[] D1[i]; delete[] D2[i]; } delete[] D1; delete[] D2;
+        g_scale = 1;
         ctx.done_case();
     }
 }
